@@ -212,6 +212,50 @@ func runC04(o *cli.Opts, run *evid.Run) {
 			run.Set("keccak_hint_wires", sys.Audit.HintWires)
 		}
 	})
+	// several hashes inside one circuit over consecutive sub-slices of one buffer (engine and compiled)
+	packed := [][]int{{32, 32, 32}, {8, 192}, {136, 1, 135}, {4, 68, 200}}
+	cli.ForEach(len(packed)*2, 4, func(i int) {
+		parts, sha3 := packed[i/2], i%2 == 1
+		key := fmt.Sprintf("C04/packed/%s/%v", domName(sha3), parts)
+		if !run.Wants(key) {
+			return
+		}
+		r := gen.RNG(o.Seed, key)
+		total := 0
+		var bitParts []int
+		for _, n := range parts {
+			total += n
+			bitParts = append(bitParts, 8*n)
+		}
+		msg := c04Content(r, "random", total)
+		outs := make([][256]frontend.Variable, 0, len(parts)+1)
+		off := 0
+		for _, n := range parts {
+			outs = append(outs, bits256(digest(sha3, msg[off:off+n])))
+			off += n
+		}
+		outs = append(outs, bits256(digest(sha3, msg)))
+		shape := &PackedKeccakCircuit{In: vars(8 * total), Outs: make([][256]frontend.Variable, len(parts)+1), Parts: bitParts, SHA3: sha3}
+		assign := &PackedKeccakCircuit{In: bitsLSB(msg), Outs: outs, Parts: bitParts, SHA3: sha3}
+		sample := map[string]any{"domain": domName(sha3), "part_lengths_bytes": parts}
+		err := test.IsSolved(shape, assign, rmon.BN254)
+		if err != nil {
+			run.Violate(key+"/engine", fmt.Sprintf("%s gadget called several times on sub-slices of one buffer does not reproduce the standard digests: %s", domName(sha3), trim(err)), sample)
+		}
+		run.Case("packed/engine/"+domName(sha3), true, key, err == nil, sample)
+		if i < 4 || o.Thorough() {
+			sys, cerr := rmon.Compile(rmon.BN254, shape)
+			if cerr != nil {
+				run.Violate(key+"/r1cs", "packed harness does not compile (inputs left unconstrained?): "+trim(cerr), sample)
+			} else {
+				res := sys.Solve(assign, nil)
+				if !res.Accepted {
+					run.Violate(key+"/r1cs", fmt.Sprintf("compiled %s gadget called several times on sub-slices of one buffer rejects the standard digests: %s", domName(sha3), trim(res.Err)), sample)
+				}
+				run.Case("packed/r1cs/"+domName(sha3), true, key, res.Accepted, sample)
+			}
+		}
+	})
 	run.Require("length residues mod 136 covered", len(residues), 136)
 	run.Require("compiled lengths", len(compiled), 6)
 }
